@@ -38,7 +38,11 @@ def _n(tier, quick, thorough, search=None):
 
 def overlapping_pair(rng: random.Random, d: int, max_size=6):
     """source grid and a target grid whose domain overlaps it (target derived from the source frame)."""
-    src = gen.grid_spec(rng, d, min_size=2, max_size=max_size)
+    if rng.random() < 0.3:
+        # derived source grid with a FRACTIONAL internal size (downsampled / resampled), as pyramid levels have
+        src = gen.derive(rng, gen.grid_spec(rng, d, min_size=5, max_size=max(max_size, 7)), 1.0)
+    else:
+        src = gen.grid_spec(rng, d, min_size=2, max_size=max_size)
     gs = gen.make_grid(src)
     tgt = gen.grid_spec(rng, d, min_size=2, max_size=max_size)
     # place the target centre inside the source domain
